@@ -826,6 +826,9 @@ func (n *nativeRunner) run(harness, replayFile string) (string, string) {
 	}
 	out := buf.String()
 	switch {
+	case strings.Contains(out, "test timed out after"):
+		// the native run hung: not a faithful reproduction of an assertion failure
+		return out, "timeout"
 	case strings.Contains(out, "VSYM-REPLAY-MISMATCH"):
 		return out, "mismatch"
 	case strings.Contains(out, "VSYM-ASSUME-FAIL"):
